@@ -97,9 +97,9 @@ def main(tier, seed):
     runner.clear_replays(PROP)
     pairs = QUICK + (THOROUGH if tier == 'thorough' else [])
     rep.bounds = dict(histories='(sequential prefix, concurrent threads) in %s: a = append, A2 = batch of 2, n = read_next, b = consuming batch read (symbolic budget); then a sequential drain' % (pairs,),
-                      threads='2 (3 in two thorough histories)', payload_size='1 .. 4096 bytes (no rotation inside the concurrent phase)',
-                      scheduling='threads switch only at the verif::sched_point lines of the source (read_next: after hydration, tail snapshot, writer snapshot, before the tail read, before the commit, before the persists; batch read: after the writer snapshot; append/batch append: entry, around the batch flag); at most %d preemptions per schedule' % 2,
-                      consistency='StrictlyAtOnce; one AtLeastOnce{2} history')
+                      threads='2 (3 in two thorough histories)', payload_size='1 .. 4096 bytes; four histories with 1 .. 11 MiB (block rotation inside the concurrent phase)',
+                      scheduling='threads switch only at the verif::sched_point lines of the source (read_next: after hydration, tail snapshot, writer snapshot, before the tail read, before the commit, before the persists; batch read: after the writer snapshot and where it releases the column lock for its I/O; append/batch append: entry, around the batch flag); at most %d preemptions per schedule' % 2,
+                      consistency='StrictlyAtOnce; three AtLeastOnce{2} histories')
     rep.assumptions = list(envmodel.ASSUMPTIONS) + ['between two scheduling points a thread runs atomically (sequentially consistent memory); interleavings inside a lock-protected section or inside one I/O call are outside the claim',
                                                     'natively the same granularity is enforced by the replay controller, so a replayed schedule is deterministic']
     binp, err = replay.build(HOOKS)
@@ -109,7 +109,12 @@ def main(tier, seed):
     docs = runner.parse_sources(engine.CORE_FILES)
     rng = random.Random(seed)
     jobs = [dict(prefix=p, threads=t, backend='fd') for p, t in pairs]
-    jobs += [dict(prefix='a,a', threads=['n', 'n'], backend='mmap'), dict(prefix='a,a,a', threads=['n,n', 'n'], backend='fd', consistency='AtLeastOnce', persist_every=2)]
+    jobs += [dict(prefix='a,a', threads=['n', 'n'], backend='mmap'), dict(prefix='a,a,a', threads=['n,n', 'n'], backend='fd', consistency='AtLeastOnce', persist_every=2),
+             dict(prefix='a,a', threads=['b', 'b'], backend='fd', consistency='AtLeastOnce', persist_every=2), dict(prefix='a,a', threads=['b', 'n'], backend='fd', consistency='AtLeastOnce', persist_every=2),
+             dict(prefix='', threads=['a,a', 'n,n'], backend='fd'),
+             # payloads up to 11 MiB: the concurrent append may seal the active block and rotate while a read is in flight
+             dict(prefix='a', threads=['a', 'n'], backend='fd', sizecap=11 * 2 ** 20), dict(prefix='a,a', threads=['a', 'n,n'], backend='fd', sizecap=11 * 2 ** 20),
+             dict(prefix='a', threads=['a', 'b'], backend='fd', sizecap=11 * 2 ** 20), dict(prefix='a,n', threads=['A2', 'n'], backend='fd', sizecap=11 * 2 ** 20)]
     agg = runner.explore_jobs(DRV[0], DRV[1], docs, jobs, dict(seed=seed), min(12, runner.ncpu()), 300 if tier == 'quick' else 3000)
     rep.absorb(agg)
     res = agg['results']
